@@ -545,6 +545,43 @@ def unused_parameters(model, R, scope):
     R.ok('UNUSED-PARAMETER', 'examined functions', 'concepts/', f'{n} parameters scanned')
 
 
+def id_keyed(model, R, scope):
+    """``id(x)`` used as a mapping key or set member: the address is only unique among objects that are alive at the same time,
+    so an entry outlives its object and is found again for a *different* object created at the same address."""
+    n = 0
+    for func in scope:
+        if func.name == '__repr__':
+            continue
+        parents = {}
+        for x in ast.walk(func.node):
+            for c in ast.iter_child_nodes(x):
+                parents[c] = x
+        for node in walk(func.body):
+            if not (isinstance(node, ast.Call) and isinstance(node.func, ast.Name) and node.func.id == 'id' and len(node.args) == 1):
+                continue
+            n += 1
+            names = set()
+            par = parents.get(node)
+            keyed = isinstance(par, ast.Subscript) and par.slice is node
+            if isinstance(par, ast.Assign) and len(par.targets) == 1 and isinstance(par.targets[0], ast.Name):
+                names.add(par.targets[0].id)
+            if isinstance(par, ast.Call) and isinstance(par.func, ast.Attribute) and par.func.attr in ('get', 'setdefault', 'pop', 'add', '__contains__', '__getitem__'):
+                keyed = True
+            if names:
+                for x in walk(func.body):
+                    if isinstance(x, ast.Subscript) and isinstance(x.slice, ast.Name) and x.slice.id in names:
+                        keyed = True
+                    if isinstance(x, ast.Compare) and isinstance(x.ops[0], (ast.In, ast.NotIn)) and isinstance(x.left, ast.Name) and x.left.id in names:
+                        keyed = True
+                    if (isinstance(x, ast.Call) and isinstance(x.func, ast.Attribute) and x.func.attr in ('get', 'setdefault', 'pop', 'add')
+                            and x.args and isinstance(x.args[0], ast.Name) and x.args[0].id in names):
+                        keyed = True
+            if keyed:
+                R.bad('ID-KEY', func, node, 'no table is keyed by the address of an object', 'a key derived from the value (or a weak reference)', src(par)[:80],
+                      extra={'consequence': 'after the object is freed a new object can get the same id(): the stale entry is returned for it'})
+    R.ok('ID-KEY', 'examined functions', 'concepts/', f'{n} id() calls scanned')
+
+
 def signature_order(model, R, scope):
     """Public functions keep the positional order of the parameters they have today (frozen table pinned_signatures.json):
     callers pass them by position.  New parameters may only follow the existing positional ones (or be keyword-only).
@@ -646,3 +683,4 @@ def run(model, R):
     unused_parameters(model, R, scope)
     bitlength_index(model, R, scope)
     signature_order(model, R, scope)
+    id_keyed(model, R, scope)
